@@ -24,6 +24,9 @@ pub enum Fault {
     OtherSeed,
     /// auxiliary cell (col, row) += 1, injected by the prover's aux-trace builder
     Aux(usize, usize),
+    /// auxiliary column regenerated from another start value: every auxiliary transition holds,
+    /// only the auxiliary assertion on that column is violated
+    AuxStart(usize),
     /// claimed value k of assertion a += 1 at verification time (honest proof)
     Claim(usize, usize),
 }
@@ -44,6 +47,7 @@ fn faults(s: &Shape) -> Vec<Fault> {
             for r in 0..s.n {
                 f.push(Fault::Aux(c, r));
             }
+            f.push(Fault::AuxStart(c));
         }
     }
     for (a, spec) in s.asserts.iter().enumerate() {
@@ -98,11 +102,13 @@ fn run_g<B: BaseF, H: HF<B>>(shape: &Arc<Shape>, cfg: &Cfg, only: Option<&Fault>
                 main = gen_main::<B>(&s2);
             },
             Fault::Aux(c, r) => aux_fault = Some((c, r)),
+            Fault::AuxStart(c) => aux_fault = Some((c, usize::MAX)),
             Fault::Claim(a, k) => claimed.values[a][k] += B::ONE,
         }
         // classification by the independent checker
         let unsat = match *f {
             Fault::Aux(_, r) => r == 0 || r <= shape.n - shape.exemptions,
+            Fault::AuxStart(_) => true, // the assertion aux[c][0] = 1 is violated by construction
             _ => check_main(shape, &main, &claimed.values).is_err(),
         };
         if !unsat {
@@ -203,6 +209,7 @@ fn parse_fault(t: &str) -> Fault {
         "Zero" => Fault::Zero(g(0), g(1)),
         "ZeroRow" => Fault::ZeroRow(g(0)),
         "Aux" => Fault::Aux(g(0), g(1)),
+        "AuxStart" => Fault::AuxStart(g(0)),
         "Claim" => Fault::Claim(g(0), g(1)),
         _ => Fault::OtherSeed,
     }
